@@ -1,9 +1,10 @@
 """C11 — the solver query equals the path's constraints; refinement is exact.
 
-Obligations: T-refine, T-pathcopy, Props/C11.vo (theorems over the regenerated rules of
-solve.refine and f-strings of solve.dump, over the model of one sevm.Path, and over the
+Obligations: T-refine, T-pathcopy, T-dumpfs, Props/C11.vo (theorems over the regenerated
+rules of solve.refine and f-strings of solve.dump, over the model of one sevm.Path, over the
 object-level model of several Path objects whose copy modes are regenerated from
-Path.branch / Path.extend_path), lint.
+Path.branch / Path.extend_path, and over the file-system model interpreting the regenerated
+statements of solve.dump / solve_low_level / solve_end_to_end), lint.
 Ties (every run):
   X-refine  real solve.refine on declaration / assert / near-miss lines at many widths
             vs the extracted refine_line; value of the real refined define-fun (z3) on
@@ -29,6 +30,18 @@ Ties (every run):
             Path methods wrapped by a recorder of every constraint handed to a path or to
             the fork that created it: every yielded state must have nothing pending and its
             dumped queries must be equivalent to the handed constraints.
+  X-dumpfs  the file the solver process reads: sequences of real solve_end_to_end /
+            solve_low_level calls on real FunctionContexts (--dump-smt-directory: DIR/<function
+            name> shared by same-named functions of several contracts, path ids restarting;
+            and temporary directories), queries from real Path.to_smt2, with a stub solver
+            command that records name and bytes of the file it is given and answers as planned
+            (sat through an abstraction -> refinement, sat, unsat, unknown), over dump
+            directories pre-populated with queries of other paths, refined queries, garbage,
+            empty and read-only leftovers: the processes started and the bytes each one read
+            vs the specification (the query of the path being solved, as text and - for the
+            witness - by z3 against the path's constraints) and vs the extracted interpreter
+            of the regenerated dump / solve_low_level / solve_end_to_end (Model/DumpFsModel.v,
+            T-dumpfs); the *.smt2 files left behind likewise.
 Scripts also use "hash twins" (distinct simplified conditions with the same z3 ast hash,
 searched at start-up): only structurally equal conditions are duplicates.
 """
@@ -41,7 +54,7 @@ from harness import common
 from harness.common import Model
 
 PID = "C11"
-TRANSLATORS = ["T-refine", "T-pathcopy"]
+TRANSLATORS = ["T-refine", "T-pathcopy", "T-dumpfs"]
 KNOWN = []  # genuine defects of halmos found by this check (none so far)
 
 ASSUMPTIONS = [
@@ -50,9 +63,10 @@ ASSUMPTIONS = [
     "tracking literals |<id>| live in their own name space (decimal z3 ast ids; halmos symbols are never purely numeric)",
     "the worklist of SEVM.run follows the exploration discipline stated as Model/PathHeapModel.sched_step (appends and forks come from the path running on the solver, the most recent waiting fork is activated next): hypothesis `sched_run ... = Some sc` of C11_solver_mirrors_running_path, visible in its statement; the theorems about conditions / queries (C11_paths_do_not_interfere, C11_every_path_query) do not need it",
     "Python object semantics as modelled: dict / set / defaultdict mutation in place, .copy() = new container with the same values, deepcopy = new container with new sets (the copy modes are read off sevm.py by T-pathcopy and cross-checked by object identity on real Path objects)",
+    "the solver process reads the file named on its command line, once, after it is started and before solve_low_level returns; a write replaces (write_text / mode w) or extends (mode a) the content of exactly the named file; calls of solve_end_to_end that share a file name do not overlap in time (paths of one FunctionContext solved concurrently have distinct ids): the file-system model of C11_solver_reads_query_of_the_path_being_solved is sequential",
     "the extracted model and driver are faithful to the Coq definitions (extraction is trusted)",
 ]
-PARTIAL = "paths are built directly on sevm.Path objects with generated z3 conditions (L2 of DESIGN 4.2), plus SEVM.run on small hand-assembled programs (single frame, two calldata words) with the Path methods wrapped by a lineage recorder; no end-to-end `python -m halmos` run on fabricated build artifacts is part of this check; the fuel of the slice worklist loop (slice_fuel) is not proved sufficient (running out is the model's error value, excluded by the `= Some` hypotheses and never observed in the correspondence run)"
+PARTIAL = "paths are built directly on sevm.Path objects with generated z3 conditions (L2 of DESIGN 4.2), plus SEVM.run on small hand-assembled programs (single frame, two calldata words) with the Path methods wrapped by a lineage recorder; the dump / solve protocol is exercised through the real solve_end_to_end / solve_low_level on real FunctionContexts with a stub solver command (its answers are planned, not computed); no end-to-end `python -m halmos` run on fabricated build artifacts is part of this check; concurrent solving of the paths of one function and file permission bits are not modelled; the fuel of the slice worklist loop (slice_fuel) is not proved sufficient (running out is the model's error value, excluded by the `= Some` hypotheses and never observed in the correspondence run)"
 
 WIDTH_POOL = ["256", "264", "512", "8", "1", "64", "1024", "0", "007", "257"]
 REAL_WIDTHS = {"bvmul": [256, 512], "bvudiv": [256], "bvurem": [256, 264, 512], "bvsdiv": [256], "bvsrem": [256], "exp": [256]}
@@ -1122,6 +1136,342 @@ def impl_engine(stmts):
     return obs
 
 
+# ----------------------------------------------------------------- X-dumpfs: which bytes the solver process reads
+
+FS_FUNCS = ["check_x", "setUp", "_compute_frontier"]
+FS_ANSWERS = ["sat-abstraction", "sat", "unsat", "unknown"]
+FS_STUB = r"""#!/bin/sh
+# stub solver: $1 = log directory, $2 = the query file halmos hands to the solver.
+# Records the name and the bytes of that file, then answers as planned for this invocation.
+d="$1/$(cat "$1/current")"
+n=0
+[ -e "$d/count" ] && read n < "$d/count"
+printf '%s' "$2" > "$d/$n.name"
+[ -e "$2" ] && cat "$2" > "$d/$n.bytes"
+ans=unknown
+[ -e "$d/answer.$n" ] && read ans < "$d/answer.$n"
+echo $((n + 1)) > "$d/count"
+case "$ans" in
+  sat-abstraction) printf 'sat\n(\n  (define-fun f_evm_bvudiv_256 ((x!0 (_ BitVec 256)) (x!1 (_ BitVec 256))) (_ BitVec 256)\n    #x0000000000000000000000000000000000000000000000000000000000000000)\n)\n' ;;
+  sat) printf 'sat\n(\n)\n' ;;
+  unsat) printf 'unsat\n()\n' ;;
+  *) printf 'unknown\n' ;;
+esac
+"""
+
+
+def gen_fs_conds(r):
+    """Constraints of one path: comparisons of x / y with constants, sometimes through the
+    division abstraction (then refinement changes the query)."""
+    cs = []
+    for _ in range(r.randint(1, 3)):
+        k = r.random()
+        v = r.choice(["x", "y"])
+        c = r.choice([0, 1, 5, 7, 42, 255, 1000, r.randrange(1 << 16)])
+        if k < 0.3:
+            cs.append(["div", v, r.choice(["x", "y"]), c])   # f_evm_bvudiv_256(v, w) == c
+        else:
+            cs.append([r.choice(["ugt", "ule", "eq"]), v, c])
+    return cs
+
+
+def gen_fs_scenario(r, tier):
+    """Function contexts (same-named functions of two contracts share DIR/<function> under
+    --dump-smt-directory; path ids restart at 0 in each), files already in the dump
+    directories, then a sequence of solve_end_to_end / solve_low_level calls."""
+    nf = r.randint(1, 3)
+    fn_pool = r.sample(FS_FUNCS, r.randint(1, 2))
+    custom_all = r.random() < 0.8
+    fctxs = [{"contract": r.choice(["A", "B", "C"]), "fn": r.choice(fn_pool),
+              "custom": custom_all if r.random() < 0.9 else not custom_all, "cache": r.random() < 0.4} for _ in range(nf)]
+    jobs = []
+    for _ in range(r.randint(1, 5 if tier == "quick" else 8)):
+        jobs.append({"fctx": r.randrange(nf), "path_id": r.choice([0, 0, 0, 1, 1, 2]), "conds": gen_fs_conds(r),
+                     "call": "low" if r.random() < 0.2 else "e2e", "refined": r.random() < 0.08,
+                     "core": r.random() < 0.08, "answer": r.choice(FS_ANSWERS + ["sat-abstraction"])})
+    stale = []
+    for _ in range(r.choice([0, 1, 1, 2, 3])):
+        j = r.randrange(len(jobs))
+        k = r.random()
+        stale.append({"fctx": jobs[j]["fctx"] if k < 0.8 else r.randrange(nf),
+                      "file": f"{jobs[j]['path_id'] if k < 0.9 else r.randint(0, 3)}{r.choice(['', '', '.refined'])}.smt2{r.choice(['', '', '', '.out'])}",
+                      "kind": r.choice(["query-of", "query-of", "refined-query-of", "garbage", "empty"]),
+                      "of": r.randrange(len(jobs)), "conds": gen_fs_conds(r), "readonly": r.random() < 0.25})
+    return {"fctxs": fctxs, "jobs": jobs, "stale": stale}
+
+
+def _fsj(f, pid, conds, answer="sat", **kw):
+    return dict({"fctx": f, "path_id": pid, "conds": conds, "call": "e2e", "refined": False, "core": False, "answer": answer}, **kw)
+
+
+_FEAS, _INFEAS, _ABS = [["ugt", "x", 7]], [["ule", "x", 5], ["ugt", "x", 7]], [["div", "x", "y", 3], ["ugt", "y", 1]]
+FS_CORPUS = [
+    # the same-named test of two contracts in one run (DIR/check_x/0.smt2 twice), both orders, plain and --cache-solver
+    {"fctxs": [{"contract": "A", "fn": "check_x", "custom": True, "cache": False}, {"contract": "B", "fn": "check_x", "custom": True, "cache": False}],
+     "jobs": [_fsj(0, 0, _FEAS), _fsj(1, 0, _INFEAS, "unsat")], "stale": []},
+    {"fctxs": [{"contract": "A", "fn": "check_x", "custom": True, "cache": True}, {"contract": "B", "fn": "check_x", "custom": True, "cache": True}],
+     "jobs": [_fsj(0, 0, _INFEAS, "unsat"), _fsj(1, 0, _FEAS)], "stale": []},
+    # assertion probes of two invariant depths: a new FunctionContext per depth, ids restart
+    {"fctxs": [{"contract": "Inv", "fn": "_compute_frontier", "custom": True, "cache": False}, {"contract": "Inv", "fn": "_compute_frontier", "custom": True, "cache": False}],
+     "jobs": [_fsj(0, 0, _FEAS), _fsj(0, 1, _INFEAS, "unsat"), _fsj(1, 0, _INFEAS, "unsat"), _fsj(1, 1, _FEAS)], "stale": []},
+    # a second run on the same --dump-smt-directory: files of the earlier run, also refined ones and solver outputs
+    {"fctxs": [{"contract": "A", "fn": "setUp", "custom": True, "cache": False}],
+     "jobs": [_fsj(0, 0, _ABS, "sat-abstraction"), _fsj(0, 1, _FEAS)],
+     "stale": [{"fctx": 0, "file": "0.smt2", "kind": "query-of", "of": 1, "conds": [], "readonly": False},
+               {"fctx": 0, "file": "0.refined.smt2", "kind": "refined-query-of", "of": 1, "conds": _INFEAS, "readonly": False},
+               {"fctx": 0, "file": "0.smt2.out", "kind": "garbage", "of": 0, "conds": [], "readonly": False},
+               {"fctx": 0, "file": "1.smt2", "kind": "garbage", "of": 0, "conds": [], "readonly": True}]},
+    # refinement of two same-named tests: DIR/check_x/0.refined.smt2 twice
+    {"fctxs": [{"contract": "A", "fn": "check_x", "custom": True, "cache": False}, {"contract": "B", "fn": "check_x", "custom": True, "cache": True}],
+     "jobs": [_fsj(0, 0, _ABS, "sat-abstraction"), _fsj(1, 0, [["div", "y", "x", 9]], "sat-abstraction")], "stale": []},
+    # default temporary directories: the same path solved again, leftovers inside the temporary directory
+    {"fctxs": [{"contract": "A", "fn": "check_x", "custom": False, "cache": False}],
+     "jobs": [_fsj(0, 0, _FEAS), _fsj(0, 0, _INFEAS, "unsat"), _fsj(0, 0, _ABS, "sat-abstraction", call="low", refined=True)],
+     "stale": [{"fctx": 0, "file": "0.smt2", "kind": "empty", "of": 0, "conds": [], "readonly": True}]},
+]
+
+
+def impl_fs_scenario(sc):
+    """Runs the calls of the scenario through the real solve_end_to_end / solve_low_level with
+    a stub solver that records the bytes of the file it is given.  Returns, per call: the
+    processes started (file name, bytes) next to what the property demands (the query of the
+    path being solved as text; z3 comparison of the bytes with the path's constraints), and
+    the model input."""
+    import contextlib
+    import io
+    import shutil
+    import stat
+    from pathlib import Path as P
+    from types import SimpleNamespace as NS
+
+    import halmos.solve as S
+    from halmos.calldata import FunctionInfo
+    from halmos.config import ConfigSource, default_config
+    from halmos.sevm import Path, f_div
+    from halmos.utils import create_solver
+
+    E = make_env()
+    z3 = E.z3
+    X = {"x": z3.BitVec("p_x_uint256_00", 256), "y": z3.BitVec("p_y_uint256_01", 256)}
+    root = os.geteuid() == 0
+
+    def cond(c):
+        if c[0] == "div":
+            return f_div(X[c[1]], X[c[2]]) == z3.BitVecVal(c[3], 256)
+        a, b = X[c[1]], z3.BitVecVal(c[2], 256)
+        return {"ugt": z3.UGT, "ule": z3.ULE, "eq": lambda p, q: p == q}[c[0]](a, b)
+
+    base = P(tempfile.mkdtemp(prefix="c11fs_"))
+    obs = {"error": None, "jobs": [], "root": root}
+    fobjs = []
+    buf = io.StringIO()
+    try:
+        (base / "log").mkdir()
+        stub = base / "solver.sh"
+        stub.write_text(FS_STUB)
+        fresh = base / "fresh"
+        fresh.mkdir()
+
+        def reference_text(q, cache, refined):
+            """what the property demands the solver to read: the query as the dump of an empty directory"""
+            d = P(tempfile.mkdtemp(dir=fresh))
+            ctx = S.PathContext(args=NS(verbose=0, cache_solver=cache), path_id=0, solving_ctx=NS(dump_dir=d), query=q, is_refined=refined)
+            S.dump(ctx)
+            return ctx.dump_file.read_text()
+
+        with contextlib.redirect_stdout(buf), contextlib.redirect_stderr(buf):
+            for f in sc["fctxs"]:
+                over = {"cache_solver": f["cache"], "solver_command": f"/bin/sh {stub} {base / 'log'}", "solver_timeout_assertion": 120.0}
+                if f["custom"]:
+                    over["dump_smt_directory"] = str(base / "dump")
+                args = default_config().with_overrides(ConfigSource.command_line, **over)
+                fobjs.append(S.FunctionContext(args=args, info=FunctionInfo(f["contract"], f["fn"], f"{f['fn']}()", "00000000"),
+                                               solver=None, contract_ctx=None))
+        dirs = [S.dirname(fo.solving_ctx.dump_dir) for fo in fobjs]
+
+        # the queries of the calls, from real Path objects
+        built = []
+        for j in sc["jobs"]:
+            fo = fobjs[j["fctx"]]
+            p = Path(create_solver())
+            conds = [cond(c) for c in j["conds"]]
+            for c in conds:
+                p.append(c)
+            q = p.to_smt2(fo.args)
+            rq = S.refine(q)
+            built.append({"q": q, "rq": rq, "conds": conds, "changed": rq.smtlib != q.smtlib})
+
+        # files already there
+        files0 = {}
+        for s in sc["stale"]:
+            name = dirs[s["fctx"]] + "/" + s["file"]
+            if s["kind"] in ("query-of", "refined-query-of"):
+                b = built[s["of"]] if not s["conds"] else None
+                if b is None:
+                    p = Path(create_solver())
+                    for c in s["conds"]:
+                        p.append(cond(c))
+                    q = p.to_smt2(fobjs[s["fctx"]].args)
+                else:
+                    q = b["q"]
+                if s["kind"] == "refined-query-of":
+                    q = S.refine(q)
+                content = reference_text(q, sc["fctxs"][s["fctx"]]["cache"], False)
+            elif s["kind"] == "garbage":
+                content = "(set-logic QF_AUFBV)\n(assert false)\n(check-sat)\n"
+            else:
+                content = ""
+            if name in files0:
+                continue
+            files0[name] = content
+            P(name).write_text(content)
+            if s["readonly"]:
+                os.chmod(name, stat.S_IRUSR | stat.S_IRGRP)
+        obs["files0"] = files0
+
+        chk = z3.Solver()
+        chk.set("timeout", 2000)
+        strip = lambda t: re.sub(r"(?m)^\((set-option|set-logic|check-sat|get-model|get-unsat-core)[^\n]*\n", "", t)  # noqa: E731
+        model_jobs = []
+        for k, (j, b) in enumerate(zip(sc["jobs"], built)):
+            fo, cache = fobjs[j["fctx"]], sc["fctxs"][j["fctx"]]["cache"]
+            ctx = S.PathContext(args=fo.args, path_id=j["path_id"], solving_ctx=fo.solving_ctx,
+                                query=b["rq"] if j["refined"] else b["q"], is_refined=j["refined"])
+            q_now = ctx.query
+            r_now = S.refine(q_now)
+            core = j["core"] and j["call"] == "e2e" and cache and len(q_now.assertions) > 0
+            again = (j["call"] == "e2e" and not core and j["answer"] == "sat-abstraction" and not j["refined"] and r_now.smtlib != q_now.smtlib)
+            # specification: the processes that must be started and what each must read
+            want = []
+            if not core:
+                want.append([str(ctx.dump_file), reference_text(q_now, cache, j["refined"])])
+                if again:
+                    want.append([str(ctx.refine().dump_file), reference_text(r_now, cache, True)])
+            ld = base / "log" / str(k)
+            ld.mkdir()
+            (base / "log" / "current").write_text(str(k))
+            (ld / "answer.0").write_text(j["answer"] + "\n")
+            (ld / "answer.1").write_text("sat\n")
+            o = {"raised": None, "want": want, "core": core, "again": again}
+            if core:
+                fo.solving_ctx.unsat_cores.append(list(q_now.assertions[:1]))
+            try:
+                with contextlib.redirect_stdout(buf), contextlib.redirect_stderr(buf):
+                    out = S.solve_end_to_end(ctx) if j["call"] == "e2e" else S.solve_low_level(ctx)
+                o["result"] = str(out.result)
+            except OSError as e:  # a leftover that cannot be written (not as root): no solver may be started on it
+                o["raised"] = f"{type(e).__name__}"
+            finally:
+                if core:
+                    fo.solving_ctx.unsat_cores.pop()
+            got = []
+            n = 0
+            while (ld / f"{n}.name").exists():
+                bf = ld / f"{n}.bytes"
+                got.append([(ld / f"{n}.name").read_text(), bf.read_text() if bf.exists() else None])
+                n += 1
+            o["got"] = got
+            # the dumped *.smt2 files left behind by this call
+            o["left"] = [P(w[0]).read_text() if P(w[0]).is_file() else None for w in want]
+            # the bytes the solver read against the constraints of the path (z3), for the unrefined query
+            o["sem"] = []
+            if got and got[0][1] is not None and not j["refined"] and (not want or got[0][1] != want[0][1]):
+                try:
+                    parsed = list(z3.parse_smt2_string(strip(got[0][1])))
+                    ids = re.findall(r"\(assert \(! \|([0-9]+)\| :named", got[0][1])
+                    o["sem"] = equiv_check(z3, chk, parsed, b["conds"], ids)
+                except z3.Z3Exception as e:
+                    o["sem"] = [["unparsable", str(e)[:120]]]
+            obs["jobs"].append(o)
+            model_jobs.append({"dir": dirs[j["fctx"]], "id": j["path_id"], "refined": j["refined"], "cache": cache, "core": core,
+                               "again": again, "smtlib": q_now.smtlib, "rsmtlib": r_now.smtlib,
+                               "ids": [int(i) for i in q_now.assertions] if all(i.isdigit() for i in q_now.assertions) else None})
+        obs["model_jobs"] = model_jobs
+        files1 = {}
+        for d in sorted(set(dirs)):
+            for p_ in sorted(P(d).iterdir()):
+                if p_.is_file() and not p_.name.endswith((".out", ".err")):
+                    files1[str(p_)] = p_.read_text()
+        obs["files1"] = files1
+    except Exception as e:  # noqa: BLE001
+        obs["error"] = f"{type(e).__name__}: {str(e)[:300]}"
+    finally:
+        for fo in fobjs:
+            with contextlib.suppress(Exception):
+                fo.thread_pool.shutdown(wait=False)
+            with contextlib.suppress(Exception):
+                fo.solving_ctx.executor.shutdown(wait=False)
+            if not isinstance(fo.solving_ctx.dump_dir, P):
+                with contextlib.suppress(Exception):
+                    fo.solving_ctx.dump_dir.cleanup()
+        for dp, _, fs_ in os.walk(base):
+            for f in fs_:
+                with contextlib.suppress(OSError):
+                    os.chmod(os.path.join(dp, f), 0o600)
+        shutil.rmtree(base, ignore_errors=True)
+    return obs
+
+
+def fs_model_call(obs):
+    """the integer encoding of a scenario for the extracted c11_fs (None: ids not numeric)"""
+    def enc(s):
+        return [len(s)] + [ord(c) for c in s]
+
+    a = [len(obs["files0"])]
+    for name, content in obs["files0"].items():
+        a += enc(name) + enc(content)
+    a.append(len(obs["model_jobs"]))
+    for j in obs["model_jobs"]:
+        if j["ids"] is None:
+            return None
+        a += enc(j["dir"]) + [j["id"], int(j["refined"]), int(j["cache"]), int(j["core"]), int(j["again"])]
+        a += enc(j["smtlib"]) + enc(j["rsmtlib"]) + [len(j["ids"])] + j["ids"]
+    return a
+
+
+def parse_fs_model(res):
+    if not res:
+        return None
+    it = iter(res)
+
+    def s():
+        n = next(it)
+        return "".join(chr(next(it)) for _ in range(n))
+
+    try:
+        trace = []
+        for _ in range(next(it)):
+            name = s()
+            trace.append([name, s() if next(it) else None])
+        files = {}
+        for _ in range(next(it)):
+            name = s()
+            files[name] = s()
+    except StopIteration:
+        return None
+    return {"trace": trace, "files": {n: c for n, c in files.items() if not n.endswith((".out", ".err"))}}
+
+
+def describe_bytes(got, sc, obs, k):
+    """whose text a file handed to the solver holds (for the failure message)"""
+    if got is None:
+        return "no such file"
+    for k2, o2 in enumerate(obs["jobs"]):
+        for w in o2["want"]:
+            if w[1] == got and k2 != k:
+                return f"the query of call {k2} ({sc['fctxs'][sc['jobs'][k2]['fctx']]['contract']}.{sc['fctxs'][sc['jobs'][k2]['fctx']]['fn']} path {sc['jobs'][k2]['path_id']}, constraints {sc['jobs'][k2]['conds']})"
+    for k2, o2 in enumerate(obs["jobs"]):
+        for w in o2["want"]:
+            if w[1] and got.startswith(w[1]) and len(got) > len(w[1]):
+                return f"the query of call {k2} (constraints {sc['jobs'][k2]['conds']}) followed by {len(got) - len(w[1])} more bytes"
+    for name, c in obs["files0"].items():
+        if c == got:
+            return f"the content {name.split('/')[-2]}/{name.split('/')[-1]} had before the run"
+        if c and got.startswith(c):
+            return f"the old content of {name.split('/')[-1]} followed by {len(got) - len(c)} more bytes"
+    return f"{len(got)} bytes: {got[:120]!r}..."
+
+
 # ----------------------------------------------------------------- run
 
 def txt(s):
@@ -1138,7 +1488,7 @@ def run(rep, tier):
     # the extracted model does not depend on the proofs: it is built (and compared with the
     # implementation) also when a proof obligation is broken
     exe, log = common.build_driver(PID)
-    rep.obligation("extraction of Model/SmtTextModel.v + Model/PathHeapModel.v entry points + OCaml driver build", exe is not None, "" if exe else log[-800:])
+    rep.obligation("extraction of Model/SmtTextModel.v + Model/PathHeapModel.v + Model/DumpFsModel.v entry points + OCaml driver build", exe is not None, "" if exe else log[-800:])
     if exe is None and b["make_ok"]:
         rep.fail("broken-tie", "extracted model driver does not build: " + log[-400:], case={})
     m = Model(exe) if exe is not None else None
@@ -1494,24 +1844,121 @@ def run(rep, tier):
                          f"the dumped query (cache_solver={cs}) of yielded path {n} ({p_['outcome']}) is not equivalent to the constraints handed to that path [{kind}]: {detail} on engine program {pg}",
                          dict(case, path=n, cache_solver=cs, kind=kind, detail=detail), sig={"what": "engine-" + kind})
     mark("engine")
+
+    # ---- X-dumpfs: the bytes the solver process reads, over pre-populated dump directories
+    nfs = 34 if tier == "quick" else 1500
+    fscs = list(FS_CORPUS) + [gen_fs_scenario(r, tier) for _ in range(nfs)]
+    if tier == "quick":
+        fimpl = [impl_fs_scenario(sc) for sc in fscs]
+    else:
+        import multiprocessing as mp
+
+        with mp.get_context("spawn").Pool(8) as pool:
+            fimpl = pool.map(impl_fs_scenario, fscs, chunksize=10)
+    mark("dumpfs_impl")
+    fres = None
+    if m is not None:
+        fcalls = [(i, fs_model_call(o)) for i, o in enumerate(fimpl) if not o["error"]]
+        fcalls = [(i, a) for i, a in fcalls if a is not None]
+        out = m.parallel_batch([("c11_fs", a) for _, a in fcalls]) if fcalls else []
+        fres = {i: parse_fs_model(o) for (i, _), o in zip(fcalls, out)}
+    nproc = 0
+    for i, (sc, o) in enumerate(zip(fscs, fimpl)):
+        case = {"fs_scenario": sc}
+        if o["error"]:
+            rep.case(case, nontrivial=False)
+            fail("broken-tie", f"the dump / solve scenario could not be run on the real code: {o['error']} on {sc}", case)
+            continue
+        # a scenario is non-trivial when the name of a query file is taken before it is solved:
+        # by a file that was there before, or by an earlier call
+        names_before = set(o["files0"])
+        collide = False
+        for oj in o["jobs"]:
+            for w in oj["want"]:
+                if w[0] in names_before:
+                    collide = True
+                names_before.add(w[0])
+        rep.case(case, nontrivial=collide)
+        rep.count("fs_scenario", "query file name already taken" if collide else "fresh names only")
+        rep.count("fs_dump_dir", "+".join(sorted({"--dump-smt-directory" if f["custom"] else "temporary" for f in sc["fctxs"]})))
+        raised = False
+        for k, (j, oj) in enumerate(zip(sc["jobs"], o["jobs"])):
+            f = sc["fctxs"][j["fctx"]]
+            who = f"call {k} ({'solve_end_to_end' if j['call'] == 'e2e' else 'solve_low_level'} for {f['contract']}.{f['fn']} path {j['path_id']}, cache_solver={f['cache']}, constraints {j['conds']})"
+            rep.count("fs_call", ("core hit" if oj["core"] else "refined again" if oj["again"] else j["call"]) + ("/cache" if f["cache"] else ""))
+            nproc += len(oj["got"])
+            if oj["raised"]:
+                raised = True
+                if oj["got"]:
+                    fail("failing-input", f"{who} raised {oj['raised']} and yet started a solver on {oj['got']}", dict(case, call=k), sig={"what": "solver-started-after-failed-dump"})
+                continue
+            # spec vs implementation: the processes started, the file each is given, the bytes it reads
+            if [g[0] for g in oj["got"]] != [w[0] for w in oj["want"]]:
+                fail("failing-input",
+                     f"{who}: the solver was started on {[g[0].split('/')[-1] for g in oj['got']]}, the property demands {[w[0].split('/')[-1] for w in oj['want']]} (the path's query; its refinement when the answer to the path's query is a model of an abstraction) in scenario {sc}",
+                     dict(case, call=k), sig={"what": "solver-runs", "refined": bool(oj["again"])})
+                continue
+            for n, (g, w) in enumerate(zip(oj["got"], oj["want"])):
+                if g[1] != w[1]:
+                    sem = "; ".join(f"[{kind}] {detail}" for kind, detail in oj["sem"] if kind != "undecided") if n == 0 else ""
+                    fail("failing-input",
+                         f"{who}: the solver process was handed {'/'.join(g[0].split('/')[-2:])} which holds {describe_bytes(g[1], sc, o, k)} and not the {'refined ' if n else ''}query of the path being solved"
+                         f"{' -- against the constraints of the path: ' + sem if sem else ''} (files before: {sorted('/'.join(x.split('/')[-2:]) for x in o['files0'])}) in scenario {sc}",
+                         dict(case, call=k, process=n, file=g[0]), sig={"what": "solver-read-other-query", "refined": n > 0, "cache": f["cache"]})
+                elif oj["left"][n] != w[1] and all(w2[0] != w[0] for w2 in oj["want"][n + 1:]):
+                    fail("failing-input",
+                         f"{who}: after the call the dumped file {'/'.join(w[0].split('/')[-2:])} holds {describe_bytes(oj['left'][n], sc, o, k)} and not the {'refined ' if n else ''}query of the path that was solved, in scenario {sc}",
+                         dict(case, call=k, process=n, file=w[0]), sig={"what": "dumped-file-not-the-query", "refined": n > 0})
+        if raised or fres is None or i not in fres:
+            continue
+        mo = fres[i]
+        got_trace = [g for oj in o["jobs"] for g in oj["got"]]
+        if mo is None:
+            fail("broken-tie", f"the extracted model of the dump / solve protocol failed on scenario {sc}", case)
+        elif mo["trace"] != got_trace:
+            d = next((x for x in range(min(len(got_trace), len(mo["trace"]))) if got_trace[x] != mo["trace"][x]), min(len(got_trace), len(mo["trace"])))
+            fail("broken-tie",
+                 f"solver processes: the real code started {len(got_trace)}, the model interpreting the regenerated dump / solve_low_level / solve_end_to_end {len(mo['trace'])}; first difference at process {d}: "
+                 f"implementation {[got_trace[d][0].split('/')[-1], (got_trace[d][1] or '')[-160:]] if d < len(got_trace) else None} vs model {[mo['trace'][d][0].split('/')[-1], (mo['trace'][d][1] or '')[-160:]] if d < len(mo['trace']) else None} on scenario {sc}",
+                 case)
+        elif mo["files"] != o["files1"]:
+            diff = sorted(n_ for n_ in set(mo["files"]) | set(o["files1"]) if mo["files"].get(n_) != o["files1"].get(n_))
+            fail("broken-tie", f"query files after the scenario differ between the real dump directories and the model: {['/'.join(x.split('/')[-2:]) for x in diff]} on scenario {sc}", case)
+    mark("dumpfs_compare")
+    rep.coverage["solver_processes_observed"] = nproc
+    rep.coverage["fs_scenarios_validated_against_impl"] = len(fres) if fres is not None else 0
     rep.coverage["engine_paths_observed"] = nyield
     rep.coverage["path_objects_observed"] = nobjects
     rep.coverage["object_programs_validated_against_impl"] = len(hscripts) if hres is not None else 0
     rep.coverage["undecided_equivalence_checks"] = undecided
     rep.coverage["traces_validated_against_impl"] = len(scripts) if mres is not None else 0
     return rep.finish(
-        checker_cmd="make -C coq Props/C11.vo (coq_makefile, coqc 8.16.1) after regenerating coq/Gen/GenRefine.v from /repo/src/halmos/solve.py",
+        checker_cmd="make -C coq Props/C11.vo (coq_makefile, coqc 8.16.1) after regenerating coq/Gen/GenRefine.v and coq/Gen/GenDumpFs.v from /repo/src/halmos/solve.py and coq/Gen/GenPathCopy.v from /repo/src/halmos/sevm.py",
         trusted_base=common.TRUSTED_BASE_COMMON + ["z3 (python bindings) as the reference parser / evaluator of the dumped SMT-LIB text in the correspondence run"],
         assumptions=ASSUMPTIONS,
         partial=PARTIAL,
-        rule="three case families: (1) refine_line: declaration lines f_evm_<op>_<N> for ops inside / outside the alternations, widths 256/264/512 and others incl. malformed (mismatching sorts, leading zeros, non-digits), other query lines; non-trivial = an f_evm_ declaration; (2) eval: the real refined define-fun applied by z3 to boundary operands (0, 1, 2^(N-1), 2^N-1, ...) and random ones at widths 256/264/512 and small widths; non-trivial = zero divisor or a negative (msb set) operand; (3) script: random lives of a sevm.Path (append / branch+activate with the parent continuing / slice / extend_path into a Path with a fresh solver) over generated z3 conditions with f_evm_ abstractions, arrays, duplicates and trivially true conditions; non-trivial = a condition was deduplicated or dropped as true, the solver holds a strict subset of conditions (sliced parent), refinement changed the query, or a branch happened; (4) hscript: programs over several Path objects (handle = creation index; append / branch / activate / slice / extend on any live object; every other program generated along the exploration discipline: one running path per solver, LIFO activation, finished states sliced and extended once or twice) plus a directed corpus (two transactions from one unsliced / sliced state, both sides of a fork running on, a frontier state extended three times, out-of-order activation); non-trivial = several objects created from one state, an object created from a state after a sibling (or the state) was appended to, or a fork; (5) engine_program: 1-4 statements over two symbolic calldata words (JUMPI to STOP / REVERT / INVALID, vm.assertTrue / assertFalse / assertEq, vm.assume) assembled to bytecode and run by the real SEVM.run; non-trivial = a failing-assertion fork was yielded; scripts of (3) and (4) also draw hash twins (pairs of distinct simplified conditions with equal z3 ast hash found by a start-up search over `a op k`, k < 3000); distinct by hash of the case",
+        rule="case families: (1) refine_line: declaration lines f_evm_<op>_<N> for ops inside / outside the alternations, widths 256/264/512 and others incl. malformed (mismatching sorts, leading zeros, non-digits), other query lines; non-trivial = an f_evm_ declaration; (2) eval: the real refined define-fun applied by z3 to boundary operands (0, 1, 2^(N-1), 2^N-1, ...) and random ones at widths 256/264/512 and small widths; non-trivial = zero divisor or a negative (msb set) operand; (3) script: random lives of a sevm.Path (append / branch+activate with the parent continuing / slice / extend_path into a Path with a fresh solver) over generated z3 conditions with f_evm_ abstractions, arrays, duplicates and trivially true conditions; non-trivial = a condition was deduplicated or dropped as true, the solver holds a strict subset of conditions (sliced parent), refinement changed the query, or a branch happened; (4) hscript: programs over several Path objects (handle = creation index; append / branch / activate / slice / extend on any live object; every other program generated along the exploration discipline: one running path per solver, LIFO activation, finished states sliced and extended once or twice) plus a directed corpus (two transactions from one unsliced / sliced state, both sides of a fork running on, a frontier state extended three times, out-of-order activation); non-trivial = several objects created from one state, an object created from a state after a sibling (or the state) was appended to, or a fork; (5) engine_program: 1-4 statements over two symbolic calldata words (JUMPI to STOP / REVERT / INVALID, vm.assertTrue / assertFalse / assertEq, vm.assume) assembled to bytecode and run by the real SEVM.run; non-trivial = a failing-assertion fork was yielded; (6) fs_scenario: 1-3 FunctionContexts (contracts A/B/C, functions check_x / setUp / _compute_frontier, --dump-smt-directory or temporary directory, cache_solver or not), 1-5 calls of solve_end_to_end (or solve_low_level, sometimes on an already refined context, sometimes answered by a known unsat core) with path ids 0-2 and 1-3 constraints each (comparisons of two symbols with constants, some through f_evm_bvudiv_256 so that refinement changes the query), planned solver answers (sat through the abstraction / sat / unsat / unknown), 0-3 files placed beforehand under the names of the calls (the dumped query of another call or of other constraints, its refinement, garbage, empty; .smt2 / .refined.smt2 / .out; some read-only) plus a directed corpus (same-named test of two contracts in both orders, plain and cached; probes of two invariant depths; a second run on a used directory with refined leftovers; two refinements under one name; one path solved three times in a temporary directory); non-trivial = the name of a query file is already taken (by a leftover or an earlier call) when it is solved; scripts of (3) and (4) also draw hash twins (pairs of distinct simplified conditions with equal z3 ast hash found by a start-up search over `a op k`, k < 3000); distinct by hash of the case",
     )
 
 
 def replay(rep, body):
     for f in body.get("failures", []):
         case = f.get("case") or {}
-        if "engine_program" in case:
+        if "fs_scenario" in case:
+            sc = case["fs_scenario"]
+            o = impl_fs_scenario(sc)
+            print("dump / solve scenario:", sc)
+            print("error:", o["error"], " files before:", sorted(o.get("files0", {})))
+            for k, oj in enumerate(o.get("jobs", [])):
+                print(f" call {k}: raised={oj['raised']} result={oj.get('result')} core_hit={oj['core']} again={oj['again']}")
+                for n, g in enumerate(oj["got"]):
+                    w = oj["want"][n] if n < len(oj["want"]) else [None, None]
+                    print(f"   process {n}: file {g[0]} {'== ' if g[0] == w[0] else '!= demanded ' + str(w[0])}; bytes {'are the query of the path' if g[1] == w[1] else 'ARE NOT the query of the path: ' + describe_bytes(g[1], sc, o, k)}")
+                if len(oj["got"]) < len(oj["want"]):
+                    print(f"   missing processes: {[w[0] for w in oj['want'][len(oj['got']):]]}")
+                if oj["sem"]:
+                    print("   against the constraints of the path:", oj["sem"])
+        elif "engine_program" in case:
             o = impl_engine(case["engine_program"])
             print("engine program:", case["engine_program"], "bytecode:", assemble_engine_program(case["engine_program"]).hex())
             print("error:", o["error"])
